@@ -80,7 +80,7 @@ type Defclass struct {
 
 // Call the the function with the arguments provided.
 func (f *Defclass) Call(s *slip.Scope, args slip.List, depth int) slip.Object {
-	slip.CheckArgCount(s, depth, f, args, 3, 6)
+	slip.CheckArgCount(s, depth, f, args, 3, -1)
 	name, ok := args[0].(slip.Symbol)
 	if !ok {
 		slip.TypePanic(s, depth, "class-name", args[0], "symbol")
